@@ -177,6 +177,17 @@ fn run_history(h: &Hist) -> (Vec<Bad>, String) {
 }
 
 pub fn run(ctx: &Ctx) -> Coverage {
+    if std::env::var("VERIF_SHARD").is_ok() {
+        super::c16b::run(ctx);
+        unreachable!();
+    }
+    let mut cov = Coverage::aggregate();
+    cov.absorb("a-session-manager", run_a(ctx));
+    cov.absorb("b-live-sessions", super::c16b::run(ctx));
+    cov
+}
+
+fn run_a(ctx: &Ctx) -> Coverage {
     let alpha = alphabet();
     let depth = ctx.tier().pick(7, 9);
     let seeds: Vec<Hist> = [1usize, 2, 3].iter().map(|&m| Hist { max_connections: m, ops: vec![] }).collect();
@@ -224,6 +235,9 @@ pub fn run(ctx: &Ctx) -> Coverage {
 }
 
 pub fn replay(ctx: &Ctx, case: &Value) -> Coverage {
+    if case["part"] == "b" {
+        return super::c16b::replay_case(ctx, case);
+    }
     let h: Hist = serde_json::from_value(case["history"].clone())
         .unwrap_or_else(|e| machinery_error(&format!("bad replay history: {e}")));
     let (bads, _) = run_history(&h);
